@@ -11,6 +11,7 @@ import shutil
 from graphslam.graph import Graph
 
 from . import graphs, tlc, tlaval
+from .core import library_debug_logging
 from .record import Session
 
 TOLS = {'0': 0.0, '1e-12': 1e-12, '1e-8': 1e-8, '1e-4': 1e-4, '1e-2': 1e-2, '1e-1': 1e-1, '0.5': 0.5}
@@ -111,24 +112,30 @@ def play(behaviours, seed, sink, twin_every=2, split_fn=None):
             continue
         if name.endswith(('reg', 'regc')):
             s.g._g2o_params = graphs.registry_for(es)
-        nopt = 0
         # Interleaving dimension: between the recorded calls, an UNRELATED graph (other objects, other template) is built, queried and optimised.
         # None of it is recorded: a recorded graph's behaviour must not depend on what happens to other graphs (no class-level / module-level state).
         noise = _Noise(seed + sid) if sid % 2 == 0 else None
+        counters = {'nopt': 0}
         for a in args:
             if noise:
                 noise.step()
-            if a['op'] == 'Query':
-                s.query(a['q'], a['target'])
-            elif a['op'] == 'SetFixed':
-                s.set_fixed(a['idx'], a['flag'])
-            elif a['op'] == 'Reload':
-                s.reload()
-            elif a['op'] == 'OptCall':
-                nopt += 1
-                split = split_fn(a['maxIter'], nopt, sid) if split_fn else None
-                s.optimize(a['maxIter'], a['fixFirst'], a['verbose'], resolve_tol(s.g, a), split=split, twin=(nopt % twin_every == 0))
+            with library_debug_logging(sid % 3 == 0):          # (every third session runs with the library's loggers at DEBUG level)
+                _step(s, a, split_fn, sid, twin_every, counters)
     return sessions
+
+
+def _step(s, a, split_fn, sid, twin_every, counters):
+    if a['op'] == 'Query':
+        s.query(a['q'], a['target'])
+    elif a['op'] == 'SetFixed':
+        s.set_fixed(a['idx'], a['flag'])
+    elif a['op'] == 'Reload':
+        s.reload()
+    elif a['op'] == 'OptCall':
+        counters['nopt'] += 1
+        nopt = counters['nopt']
+        split = split_fn(a['maxIter'], nopt, sid) if split_fn else None
+        s.optimize(a['maxIter'], a['fixFirst'], a['verbose'], resolve_tol(s.g, a), split=split, twin=(nopt % twin_every == 0))
 
 
 _REJ = re.compile(r'<<"REJECT", (\d+), (\d+), "([^"]+)">>')
